@@ -6,9 +6,10 @@ pub mod prog;
 pub mod c20;
 pub mod c06;
 pub mod c07;
+pub mod c09;
 
 pub fn all() -> Vec<&'static dyn Prop> {
-    vec![&prog::C01, &prog::C02, &prog::C03, &prog::C08, &c06::C06, &c07::C07, &c10::C10, &c20::C20]
+    vec![&prog::C01, &prog::C02, &prog::C03, &prog::C08, &c06::C06, &c07::C07, &c09::C09, &c10::C10, &c20::C20]
 }
 
 pub fn find(id: &str) -> Option<&'static dyn Prop> {
